@@ -21,6 +21,14 @@ theorem concat_checks_present :
 theorem join_checks_present :
     Gen.Concat.join.perPiece ≥ 3 ∧ Gen.Concat.join.finalEq = true := by decide
 
+/-- The separator of `join`, `join_slices` and `HipStr::join` is read through `AsRef` exactly ONCE (the
+length pass and the copy pass use the same slice): a separator whose `as_ref()` answers differently
+on successive calls cannot make the buffer be sized with one answer and filled with another. (The
+model's `join` takes the separator as a plain byte list — this is the fact that justifies it.) -/
+theorem sep_evaluated_once :
+    Gen.Concat.join.sepEvals = 1 ∧ Gen.Concat.joinSlices.sepEvals = 1 ∧ Gen.Concat.strJoin.sepEvals = 1 := by
+  decide
+
 private theorem capacity_ge (icap n : Nat) : n ≤ capacityFor icap n := by
   unfold capacityFor; split <;> omega
 
